@@ -52,6 +52,21 @@ def _shard_random(args):
     return traces, meta, stats
 
 
+def _shard_sweep(args):
+    from harness import c15_walk as cw
+    traces, meta = [], {}
+    stats = collections.Counter()
+    for tid, spec in args:
+        w = cw.sweep_case(tid, spec)
+        stats['sweep_planned'] += 1
+        if w is None:
+            stats['sweep_not_requestable'] += 1
+            continue
+        traces.append(w.trace())
+        meta[tid] = _meta(w, 'sweep', spec=list(spec))
+    return traces, meta, dict(stats)
+
+
 def _shard_model(args):
     from harness import c15_replay as cr
     traces, meta = [], {}
@@ -161,7 +176,9 @@ def run(ctx):
     ctx.rule = ('M: WalkGen.tla, all ordered trees <= N nodes x on x back x recurse x self_ x every interleaving of '
                 'iteration steps with <= MaxMut replace(keep|new FST)/remove mutations of any live node and send(). '
                 'G: model behaviours replayed on nested lists / nested ifs. V: all real runs (replays + random '
-                'walk/search/sub over the corpus incl. scope=True, type/callable filters) judged by WalkAccept.tla. '
+                'walk/search/sub over the corpus incl. scope=True, type/callable filters; systematic sweep: every yield position '
+                'x every mutable ancestor x replace/remove x on x back x walk/search/sub on small constructs incl. the '
+                'None-holding list fields Dict.keys / arguments.kw_defaults) judged by WalkAccept.tla. '
                 'distinct = distinct (api, on, back, recurse, scope, self_, filter form, relation of the mutated node to '
                 'the current node, operation, FST kept?, at leaving yield?) tuples actually executed against pfst')
     ctx.assumptions += [
@@ -224,7 +241,7 @@ def run(ctx):
         gstats.update(st)
 
     # -- V random --------------------------------------------------------------------------------------------------------
-    n_rand = 3000 if quick else 40000
+    n_rand = 2500 if quick else 40000
     base = 1_000_000
     specs = [(base + i, ctx.seed * 1_000_003 + i) for i in range(n_rand)]
     res_r = _pool_map(_shard_random, specs, 10, max(50, n_rand // 28 + 1))
@@ -232,7 +249,18 @@ def run(ctx):
     for _, _, st in res_r:
         rstats.update(st)
 
-    validated = _validate(ctx, res_g + res_r)
+    # -- V systematic: every yield position x every mutable ancestor x replace/remove x on x back x walk/search/sub -----
+    from harness import c15_walk as cw
+    plan = cw.sweep_plan(quick, ctx.seed)
+    res_s = _pool_map(_shard_sweep, [(2_000_000 + i, sp) for i, sp in enumerate(plan)], 10, max(50, len(plan) // 28 + 1))
+    sstats = collections.Counter()
+    for _, _, st in res_s:
+        sstats.update(st)
+    ctx.extra['ancestor_sweep'] = dict(sstats, constructs=cw.N_SWEEP, none_holding_constructs=len(cw.SWEEP_NONE_LISTS))
+    if sstats['sweep_planned'] - sstats['sweep_not_requestable'] < 1000:
+        raise common.Machinery('ancestor sweep produced too few runs')
+
+    validated = _validate(ctx, res_g + res_r + res_s)
     _collect(ctx, validated)
     for fu in m_futs:
         fu.result()  # raises Machinery if the specification lost a property or an action was never taken
@@ -256,6 +284,8 @@ def replay(ctx, path):
         rp = json.load(f)
     if rp['driver'] == 'random':
         res = [_shard_random([(1, rp['case_seed'])])]
+    elif rp['driver'] == 'sweep':
+        res = [_shard_sweep([(1, tuple(rp['spec']))])]
     else:
         res = [_shard_model([(1, rp['beh'], rp['mode'])])]
     validated = _validate(ctx, res)
